@@ -256,6 +256,8 @@ func exec(op string) vlib.Res {
 		return execPick(a)
 	case "response":
 		return execResponse(a)
+	case "l3zone":
+		return execL3Zone(a)
 	}
 	if fc == nil {
 		return vlib.Res{Impl: "nocache"}
@@ -464,6 +466,8 @@ func exec(op string) vlib.Res {
 		return vlib.Res{Impl: fmt.Sprintf("len=%d", fc.Len()), Oracle: or}
 	case "sset": // <name> <type> <class> <keycd> <scope> <class: useful|servfail|other> <now>
 		return execSet(a)
+	case "alias": // <name> <class> <cd> <opt t/f> <now> <target outcome>
+		return execAlias(a)
 	case "serve": // <name> <type> <class> <cd> <opt t/f> <now> <upstream outcome>
 		return execServe(a)
 	case "write": // <ctxflags> <mark> <q key 5> <now> <wit> <useful|nxdomain|servfail|refused>
@@ -880,6 +884,145 @@ func execServe(a []string) vlib.Res {
 		}
 	}
 	return vlib.Res{Impl: impl, Oracle: or, Tags: "nt"}
+}
+
+// aliasUpstream answers the alias question with a CNAME only, so the cache
+// has to chase the target through its queryer.
+type aliasUpstream struct {
+	calls  int
+	k      cache.FailureQuestionKey
+	target string
+}
+
+func (u *aliasUpstream) Name() string { return "alias-upstream" }
+func (u *aliasUpstream) ServeDNS(_ context.Context, ch *middleware.Chain) {
+	u.calls++
+	res := new(dns.Msg)
+	res.SetReply(newReq(u.k))
+	res.CheckingDisabled = u.k.CD
+	res.Answer = []dns.RR{&dns.CNAME{Hdr: dns.RR_Header{Name: u.k.Question.Name, Rrtype: dns.TypeCNAME, Class: u.k.Question.Qclass, Ttl: 300}, Target: u.target}}
+	_ = ch.Writer.WriteMsg(res)
+	ch.Cancel()
+}
+
+// targetQueryer plays the sub-pipeline that resolves the alias target. Like
+// the resolver handler it reports a request-local rejection as a SERVFAIL
+// RESPONSE carrying exact request-local provenance (no Go error).
+type targetQueryer struct {
+	calls   int
+	outcome string
+}
+
+func (q *targetQueryer) Query(ctx context.Context, req *dns.Msg) (*dns.Msg, error) {
+	q.calls++
+	resp := new(dns.Msg)
+	switch {
+	case strings.HasPrefix(q.outcome, "local:"):
+		resp.SetRcode(req, dns.RcodeServerFailure)
+		ctx, _ = middleware.EnsureResolutionAttemptGuard(ctx)
+		middleware.MarkRequestLocalFailureResponse(ctx, resp, causeErr(q.outcome[6:]))
+	case strings.HasPrefix(q.outcome, "err:"):
+		return nil, causeErr(q.outcome[4:])
+	case q.outcome == "servfail":
+		resp.SetRcode(req, dns.RcodeServerFailure)
+	case q.outcome == "refused":
+		resp.SetRcode(req, dns.RcodeRefused)
+	default:
+		resp.SetReply(req)
+		resp.Answer = []dns.RR{&dns.A{Hdr: dns.RR_Header{Name: req.Question[0].Name, Rrtype: dns.TypeA, Class: req.Question[0].Qclass, Ttl: 60}, A: []byte{192, 0, 2, 9}}}
+	}
+	return resp, nil
+}
+
+// fail alias <name> <class> <cd> <opt> <now> <local:<cause>|err:attempt|servfail|refused|ok>
+// A client asks for an alias (type A) through the real Cache.ServeDNS; the
+// upstream answers with the CNAME only and the cache chases the target through
+// its queryer. When the target leg fails for a reason local to the request
+// tree, a SECOND, independent client repeats the query at the same instant.
+func execAlias(a []string) vlib.Res {
+	k := parseQ([]string{a[0], "1", a[1], a[2], "-"})
+	setNow(a[4])
+	outcome := a[5]
+	up := &aliasUpstream{k: k, target: "tgt.alias-target-c13.example."}
+	tq := &targetQueryer{outcome: outcome}
+	full.SetQueryer(tq)
+	defer full.SetQueryer(nil)
+	client := func(addr string) *dns.Msg {
+		cache.VerifC13ForgetAnswers(full, k.Question)
+		ch := middleware.NewChain([]middleware.Handler{full, up})
+		w := mock.NewWriter("udp", addr)
+		req := newReq(k)
+		if a[3] == "t" {
+			req.SetEdns0(1232, true)
+		}
+		ch.Reset(w, req)
+		ctx, _ := middleware.EnsureResolutionAttemptGuard(context.Background())
+		ch.Next(ctx)
+		cache.VerifC13ForgetAnswers(full, k.Question)
+		return w.Msg()
+	}
+	pre, preOK := fc.Lookup(k)
+	before := snapshot()
+	ref.observe(refQ(k), cache.VerifC13QuestionHash(k))
+	reply := client("192.0.2.77:4242")
+	if reply == nil {
+		return vlib.Res{Impl: "noreply", Oracle: "FAIL sig=alias/no-reply", Tags: "nt"}
+	}
+	if up.calls == 0 {
+		or := judgeResponse(nil, reply, "alias")
+		if reply.IsEdns0() != nil {
+			or = "ok" // judged by fail serve; here only the gate matters
+		}
+		if !preOK {
+			or = "FAIL sig=alias/answered-without-upstream-although-nothing-is-suppressed"
+		} else {
+			or = worst(or, ref.judgeLookup(k, pre, preOK, "alias"))
+		}
+		if !enabled {
+			or = "FAIL sig=alias/disabled-served-from-failure-cache"
+		}
+		return vlib.Res{Impl: "hit upstream=0 target=0 rcode=" + fmt.Sprint(reply.Rcode), Oracle: or, Tags: "nt"}
+	}
+	or := "ok"
+	local := (strings.HasPrefix(outcome, "local:") && localCause(outcome[6:])) || outcome == "err:attempt"
+	rcode := reply.Rcode
+	switch {
+	case local:
+		if snapshot() != before {
+			or = fmt.Sprintf("FAIL sig=alias/request-local-target-failure-became-shared-state target=%s", outcome)
+		}
+		// an independent second client must reach the upstream again
+		upBefore := up.calls
+		replyB := client("192.0.2.78:4343")
+		if up.calls != upBefore+1 {
+			or = worst(or, "FAIL sig=alias/second-client-answered-from-first-clients-local-failure")
+		}
+		if replyB != nil {
+			for _, c := range edeCodes(replyB) {
+				if c == 13 {
+					or = worst(or, "FAIL sig=alias/second-client-got-cached-error-ede")
+				}
+			}
+		}
+		if snapshot() != before {
+			or = worst(or, fmt.Sprintf("FAIL sig=alias/request-local-target-failure-became-shared-state target=%s", outcome))
+		}
+	case outcome == "ok":
+		if enabled {
+			ref.resetQ(k)
+			ref.resetMatching(k)
+			or = ref.afterSuccess(k, "alias")
+		}
+	default: // a genuine failure of the target leg MAY be shared
+		if h, ok := fc.Lookup(k); ok && enabled && h.Kind == cache.FailureKindQuestion {
+			or = ref.recorded(refQ(k), h, "alias")
+		}
+	}
+	if !enabled && snapshot() != before {
+		or = "FAIL sig=alias/disabled-but-state-changed"
+	}
+	h, ok := fc.Lookup(k)
+	return vlib.Res{Impl: fmt.Sprintf("miss upstream=%d target=%d rcode=%d len=%d %s", up.calls, tq.calls, rcode, fc.Len(), fmtLookup(h, ok)), Oracle: or, Tags: "nt"}
 }
 
 // snapshot is a canonical rendering of every retained state.
